@@ -7,9 +7,14 @@ Import ListNotations.
 Definition OptP {A : Type} (P : A -> Prop) (o : option A) : Prop :=
   match o with Some a => P a | None => True end.
 
-(* P on every element (a fixpoint, so that it can be used in nested recursive definitions) *)
-Fixpoint AllP {A : Type} (P : A -> Prop) (l : list A) : Prop :=
-  match l with [] => True | a :: r => P a /\ AllP P r end.
+(* P on every element (a local fixpoint over the list only, so that it can be used in nested recursive definitions) *)
+Definition AllP {A : Type} (P : A -> Prop) : list A -> Prop :=
+  fix go (l : list A) : Prop := match l with [] => True | a :: r => P a /\ go r end.
+
+Lemma AllP_nil {A} (P : A -> Prop) : AllP P [] = True.
+Proof. reflexivity. Qed.
+Lemma AllP_cons {A} (P : A -> Prop) a r : AllP P (a :: r) = (P a /\ AllP P r).
+Proof. reflexivity. Qed.
 
 Lemma AllP_Forall {A} (P : A -> Prop) l : AllP P l <-> Forall P l.
 Proof.
@@ -62,7 +67,7 @@ Section ExprInd.
   Fixpoint expr_ind' (e : expr) : P e :=
     let opt (o : option expr) : OptP P o :=
       match o return OptP P o with Some x => expr_ind' x | None => I end in
-    let list :=
+    let lst :=
       fix go (l : list expr) : AllP P l :=
         match l return AllP P l with [] => I | a :: r => conj (expr_ind' a) (go r) end in
     let fields :=
@@ -76,16 +81,16 @@ Section ExprInd.
     | EVar x => HVar x
     | EQualifiedVar s => HQVar s
     | EBlock b => HBlock b (opt b)
-    | ETuple es => HTuple es (list es)
+    | ETuple es => HTuple es (lst es)
     | EProj x i => HProj x i (expr_ind' x)
     | EArrayAccess a i => HArrayAccess a i (expr_ind' a) (expr_ind' i)
-    | EArrayLiteral es => HArrayLiteral es (list es)
+    | EArrayLiteral es => HArrayLiteral es (lst es)
     | ERecordLiteral fs => HRecordLiteral fs (fields fs)
     | EImcompleteRecord fs => HImcompleteRecord fs (fields fs)
     | ERecordUpdate r fs => HRecordUpdate r fs (expr_ind' r) (fields fs)
     | EFieldAccess r f => HFieldAccess r f (expr_ind' r)
-    | EApply f args => HApply f args (expr_ind' f) (list args)
-    | EMacroExpand f args => HMacroExpand f args (expr_ind' f) (list args)
+    | EApply f args => HApply f args (expr_ind' f) (lst args)
+    | EMacroExpand f args => HMacroExpand f args (expr_ind' f) (lst args)
     | EBinOp l op r => HBinOp l op r (expr_ind' l) (expr_ind' r)
     | EUniOp op x => HUniOp op x (expr_ind' x)
     | EParen x => HParen x (expr_ind' x)
@@ -132,7 +137,7 @@ Section ValueInd.
   Hypothesis HPrim : forall n, P (VPrim n).
 
   Fixpoint value_ind' (v : value) : P v :=
-    let list :=
+    let lst :=
       fix go (l : list value) : AllP P l :=
         match l return AllP P l with [] => I | a :: r => conj (value_ind' a) (go r) end in
     let envl :=
@@ -148,8 +153,8 @@ Section ValueInd.
     | VTy t => HTy t
     | VUnit => HUnit
     | VCode c => HCode c
-    | VArr l => HArr l (list l)
-    | VTup l => HTup l (list l)
+    | VArr l => HArr l (lst l)
+    | VTup l => HTup l (lst l)
     | VClos ps body r => HClos ps body r (envl r)
     | VRec f ps body r => HRec f ps body r (envl r)
     | VPrim n => HPrim n
